@@ -112,9 +112,15 @@ impl<'a> FullnameSerializer<'a> {
     // this is handy for the HTML rendering system, which insists some namespaces
     // should be in the empty prefix (xhtml, mathml, svg)
     pub(crate) fn add_empty_prefix(&mut self, namespace_id: NamespaceId) {
+        let empty_prefix = self.xot.empty_prefix();
         let current_fullname_info = self.stack.last_mut().unwrap();
-        let empty_entry = (self.xot.empty_prefix(), namespace_id);
-        current_fullname_info.all_namespaces.push(empty_entry);
+        // this overrides any default namespace that was in scope
+        current_fullname_info
+            .all_namespaces
+            .retain(|(prefix, _)| *prefix != empty_prefix);
+        current_fullname_info
+            .all_namespaces
+            .push((empty_prefix, namespace_id));
     }
 
     pub(crate) fn pop(&mut self, has_namespaces: bool) {
